@@ -26,7 +26,37 @@ class IGraph:
         return n['item'] in ALLOC_ENTRY and (n['krate'] == 'alloc' or n['foreign'])
 
     def is_panic(self, n):
-        return n['krate'] in ('core', 'std') and not n['mir'] and any(n['def'].startswith(p) or p in n['def'] for p in PANIC_ENTRY)
+        """diverging panic entry points of core (the MIR-less sinks of the walk)"""
+        if n['krate'] not in ('core', 'std') or n['mir'] or n['kind'] != 'item':
+            return False
+        it = n['item']
+        return ('panicking::' in n['def'] or it in ('unwrap_failed', 'expect_failed', 'slice_error_fail', 'str_index_overflow_fail')
+                or (it.startswith('slice_') and it.endswith('_fail')) or it.startswith('panic'))
+
+    def panic_sites(self, seen):
+        """for a reachability map: set of (blamed function def, blamed crate, sink def): the nearest non-core ancestor of each
+        reachable panic entry; std-internal unsafe-precondition checks (…::precondition_check) are not value-dependent and skipped"""
+        out = set()
+        for x in seen:
+            n = self.nodes[x]
+            if not self.is_panic(n):
+                continue
+            p = seen[x]
+            skip = False
+            blamed = None
+            while p is not None:
+                pn = self.nodes[p[0]]
+                if '::precondition_check' in pn['path']:
+                    skip = True
+                    break
+                if pn['krate'] not in ('core', 'std', 'alloc'):
+                    blamed = pn
+                    break
+                p = seen[p[0]]
+            if skip or blamed is None:
+                continue
+            out.add((blamed['def'], blamed['krate'], n['def']))
+        return out
 
     def reach(self, root, stop=None):
         """BFS; returns {node: (parent, edge kind, line)}; does not expand nodes for which stop(node) holds"""
